@@ -559,7 +559,7 @@ func writeEvidence(prop, tier string, seed int, pc *PropCfg, eng *Engine, result
 			"harness": r.Run.Name, "package": r.Run.Pkg, "params": r.Run.Params, "arith_mode": r.Run.Arith,
 			"paths": r.Stats.Paths, "path_ends": r.Stats.PathEnds, "forks": r.Stats.Forks,
 			"feasibility_queries": r.Stats.FeasQueries, "branches_decided_by_interval_facts": r.Stats.FactPruned, "deciding_queries": r.Stats.DecideQueries,
-			"deciding_unsat": r.Stats.DecideUnsat, "deciding_sat": r.Stats.DecideSat, "deciding_unknown": r.Stats.DecideUnknown,
+			"deciding_unsat": r.Stats.DecideUnsat, "deciding_sat": r.Stats.DecideSat, "deciding_unknown": r.Stats.DecideUnknown, "sat_by_candidate_evaluation_after_solver_unknown": r.Stats.GuessedModels,
 			"assertions_folded_true_by_construction": r.Stats.AssertConst, "assertion_sites": r.Stats.Asserts,
 			"reach": r.Stats.Reached, "choices": r.Stats.Choices, "steps": r.Stats.Steps, "max_decision_depth": r.Stats.MaxDepth,
 			"solver": r.Run.Solver, "portfolio": r.Run.Portfolio, "solver_time_s": r.Stats.SolverTime.Seconds(), "solver_queries": r.Stats.SolverQueries, "one_shot_queries": r.Stats.FreshQueries, "float_results_overapproximated": r.Stats.OpaqueInts, "sampled_value_classes": r.Stats.SampledClasses, "go_statements_not_executed": r.Stats.GoSkipped,
